@@ -14,6 +14,8 @@ mod corpus;
 mod meta;
 #[cfg(feature = "b1")]
 mod faults;
+#[cfg(feature = "b1")]
+mod names;
 mod xp;
 #[cfg(o2o_verif)]
 mod orders;
